@@ -84,6 +84,7 @@ int main(int argc, char **argv)
 	opt.battery = args.prop == "C06" || args.prop == "C04";
 	opt.focus = args.prop;
 	std::string mode = args.kv.count("mode") ? args.kv["mode"] : "plain";
+	opt.no_midstop = mode == "chunk";
 	// metamorphic partners: the same script under another read/write chunking (C04) or another stack/heap dirtying pattern (C14)
 	auto run_script = [&](const Script &sc) -> Report {
 		Report r = run(sc, opt);
